@@ -60,6 +60,7 @@ func (s *Scanner) Scan() bool {
 			err error
 			pos pars.Position
 		}, len(sequenceParsers))
+		start := s.s.Position()
 		for i, p := range sequenceParsers {
 			s.s.Push()
 			s.res, errs[i].err = p.Parse(s.s)
@@ -70,6 +71,13 @@ func (s *Scanner) Scan() bool {
 			}
 			errs[i].pos = s.s.Position()
 			s.s.Pop()
+			if s.s.Position() != start {
+				// The parser took input for good before it failed: the input
+				// is in its format, and broken. The next format must not be
+				// tried on what is left of it.
+				s.err = truncated(errs[i].err)
+				return false
+			}
 		}
 		argmax := 0
 		maxpos := pars.Position{Line: 0, Byte: 0}
